@@ -562,6 +562,11 @@ func TestC11(t *testing.T) {
 			k := 0
 			c.Root.Walk(func(n *model.Node) {
 				for i := range n.Tests {
+					if n.Tests[i].Complex != "" {
+						// complex tests report through ctx.Issue() here: a hand-built issue names no type, and the
+						// message maps are keyed by type (its author writes the message)
+						n.Tests[i].Complex, n.Tests[i].Opts.Path = "ctx", ""
+					}
 					o := &n.Tests[i].Opts
 					if o.Msg != "" {
 						k++
